@@ -22,13 +22,13 @@ PK = "Source/Lib/Encoder/Codec/EbPacketizationProcess.c"
 def gen_fill(wd):
     a = slicer.between(PK, "        output_stream_ptr->pic_type =", ";", include_b=True)
     b = slicer.between(PK, "        // Code the SPS\n", "encode_sps_av1(")
-    cond = b[b.index("if"):]
+    cond = b[len("        // Code the SPS\n"):]   # everything between the comment and the call: declarations the condition uses are kept
     if cond.count("{") != 1:
         raise RuntimeError("unexpected shape of the sequence-header condition")
     open(os.path.join(wd, "c02_fill.inc"), "w").write(
         "/* sliced verbatim from packetization_kernel */\n"
         "static void set_pic_type(PictureControlSet *pcs_ptr, EbBufferHeaderType *output_stream_ptr) {\n" + a + "\n}\n"
-        "static void sps_decision(PictureControlSet *pcs_ptr, FrameHeader *frm_hdr, PacketizationReorderEntry *queue_entry_ptr) {\n    (void)pcs_ptr; (void)frm_hdr; (void)queue_entry_ptr;\n    "
+        "static void sps_decision(PictureControlSet *pcs_ptr, SequenceControlSet *scs_ptr, FrameHeader *frm_hdr, PacketizationReorderEntry *queue_entry_ptr) {\n    (void)pcs_ptr; (void)scs_ptr; (void)frm_hdr; (void)queue_entry_ptr;\n    "
         + cond + " encode_sps_av1_stub(); }\n}\n")
 def gen_drain(wd):
     src = open(os.path.join(REPO, "Source/Lib/Encoder/Codec/EbPacketizationProcess.c")).read()
